@@ -7,6 +7,7 @@ import (
 	"os"
 	"path/filepath"
 	"testing"
+	"time"
 
 	"github.com/glowlabs-org/gca-backend/glow"
 	"github.com/glowlabs-org/gca-backend/server"
@@ -22,16 +23,63 @@ import (
 // any file; whatever the archive code does with size (buffers, chunks, limits)
 // is only visible on a long history.
 func TestC14LongHistory(t *testing.T) {
-	ev.Rule("C14(4): long histories: (a) 17-40 devices and 2-4 rotations by the server's own loop (statistics file 1.1-5 MB), (b) 7100-7400 authorized devices (authorization file just above 1 MiB), (c) 20-24 devices reporting 600-700 slots each (report log just above 1 MiB); an archive is requested while a burst (new device + first report, or a further rotation) lands in a drawn gap; oracle as C14(1) (record-aligned prefixes, dependency closure, signatures, no private key); non-trivial = some public file in the archive exceeds 1 MiB; distinct by (mode, sizes, gap)")
+	ev.Rule("C14(4): long histories: (a) 17-40 devices and 2-4 rotations by the server's own loop (statistics file 1.1-5 MB), (b) 7100-7400 authorized devices (authorization file just above 1 MiB), (c) 20-24 devices reporting 600-700 slots each (report log just above 1 MiB); the authorization and report files are prepared in the data directory before the server starts (loaded as after a restart), the rotations are performed by the running server; an archive is requested while a burst (new device + first report, or a further rotation) lands in a drawn gap; oracle as C14(1) (record-aligned prefixes, dependency closure, signatures, no private key); non-trivial = some public file in the archive exceeds 1 MiB; distinct by (mode, sizes, gap)")
 	server.VerifSetStepping(true)
 	rapid.Check(t, func(t *rapid.T) {
 		mode := rapid.SampledFrom([]string{"weeks", "weeks", "weeks", "authorizations", "reports"}).Draw(t, "mode")
 		temp, gca := keyFor("temp"), keyFor("gca")
 		glow.SetCurrentTimeslot(100)
 		dir := world.NewServerDir(temp.Pub)
+		// The long files are written into the data directory before the server
+		// starts (it loads them as after any restart): thousands of requests per
+		// case would take the server past the 120 s life span of test builds when
+		// the machine is busy.
+		var keys []ref.Key
+		var authFile, reportFile []byte
+		authorize := func(n int) {
+			for i := 0; i < n; i++ {
+				k := keyFor(fmt.Sprintf("c14-long-%d", i))
+				a := ref.Auth{ShortID: uint32(5000 + i), PublicKey: k.Pub, Capacity: 1 << 30}
+				a.Sig = ref.Sign(gca, a.SigningBytes())
+				authFile = append(authFile, a.Encode()...)
+				keys = append(keys, k)
+			}
+		}
+		desc := mode
+		weeks := 0
+		switch mode {
+		case "weeks":
+			nDev := rapid.IntRange(17, 40).Draw(t, "devices")
+			weeks = rapid.IntRange(2, 4).Draw(t, "weeks")
+			if nDev*weeks > 80 {
+				weeks = 2
+			}
+			authorize(nDev)
+			desc = fmt.Sprintf("weeks devices=%d rotations=%d", nDev, weeks)
+		case "authorizations":
+			n := rapid.IntRange(7100, 7400).Draw(t, "devices")
+			authorize(n)
+			desc = fmt.Sprintf("authorizations devices=%d", n)
+		case "reports":
+			nDev := rapid.IntRange(20, 24).Draw(t, "devices")
+			per := rapid.IntRange(600, 700).Draw(t, "slotsPerDevice")
+			authorize(nDev)
+			for i, k := range keys {
+				for s := 0; s < per; s++ {
+					reportFile = append(reportFile, ref.SignedReport(k, uint32(5000+i), uint32(s), uint64(10+s)).Encode()...)
+				}
+			}
+			desc = fmt.Sprintf("reports devices=%d slots=%d", nDev, per)
+		}
+		for name, b := range map[string][]byte{"gcaPubKey.dat": gca.Pub[:], "equipment-authorizations.dat": authFile, "equipment-reports.dat": reportFile} {
+			if err := os.WriteFile(filepath.Join(dir, name), b, 0644); err != nil {
+				t.Fatal(err)
+			}
+		}
+		born := time.Now()
 		S, err := world.StartServer(dir)
 		if err != nil {
-			t.Fatalf("C14: start: %v", err)
+			t.Fatalf("C14: %s: the server does not start on the prepared directory: %v", desc, err)
 		}
 		st := &c14State{gca: gca, temp: temp}
 		defer func() {
@@ -45,61 +93,25 @@ func TestC14LongHistory(t *testing.T) {
 			world.StopAllLeaked()
 			os.RemoveAll(dir)
 		}()
-		if code, _, err := S.Register(gca.Pub, temp); err != nil || code != 200 {
-			t.Fatalf("C14: registration failed")
+		if snap := S.VerifSnapshot(); !snap.GCAAvailable || len(snap.Equipment) != len(keys) {
+			t.Fatalf("C14: %s: harness: the prepared directory was loaded as registered=%v with %d devices", desc, snap.GCAAvailable, len(snap.Equipment))
 		}
-		authorize := func(n int) []ref.Key {
-			var keys []ref.Key
-			for i := 0; i < n; i++ {
-				k := keyFor(fmt.Sprintf("c14-long-%d", i))
-				a := ref.Auth{ShortID: uint32(5000 + i), PublicKey: k.Pub, Capacity: 1 << 30}
-				a.Sig = ref.Sign(gca, a.SigningBytes())
-				if code, _, err := S.Authorize(a); err != nil || code != 200 {
-					t.Fatalf("C14: authorization %d failed: %v %d", i, err, code)
-				}
-				keys = append(keys, k)
-			}
-			return keys
-		}
-		desc := mode
-		switch mode {
-		case "weeks":
-			nDev := rapid.IntRange(17, 40).Draw(t, "devices")
-			weeks := rapid.IntRange(2, 4).Draw(t, "weeks")
-			if nDev*weeks > 80 {
-				weeks = 2
-			}
-			keys := authorize(nDev)
-			for w := 0; w < weeks; w++ {
-				now := glow.CurrentTimeslot()
-				for i, k := range keys {
-					if i%5 == 0 {
-						S.SendUDP(ref.SignedReport(k, uint32(5000+i), now, uint64(70+w)).Encode())
-					}
-				}
-				if err := c14Bursts()[2].run(S, st); err != nil {
-					t.Fatalf("C14: %v", err)
-				}
-				glow.SetCurrentTimeslot(S.VerifSnapshot().Offset + 100)
-			}
-			desc = fmt.Sprintf("weeks devices=%d rotations=%d", nDev, weeks)
-		case "authorizations":
-			n := rapid.IntRange(7100, 7400).Draw(t, "devices")
-			authorize(n)
-			desc = fmt.Sprintf("authorizations devices=%d", n)
-		case "reports":
-			nDev := rapid.IntRange(20, 24).Draw(t, "devices")
-			per := rapid.IntRange(600, 700).Draw(t, "slotsPerDevice")
-			keys := authorize(nDev)
-			glow.SetCurrentTimeslot(400)
+		for w := 0; w < weeks; w++ {
+			now := glow.CurrentTimeslot()
 			for i, k := range keys {
-				for s := 0; s < per; s++ {
-					if err := S.SendUDP(ref.SignedReport(k, uint32(5000+i), uint32(s), uint64(10+s)).Encode()); err != nil {
-						t.Fatalf("C14: report: %v", err)
-					}
+				if i%5 == 0 {
+					S.SendUDP(ref.SignedReport(k, uint32(5000+i), now, uint64(70+w)).Encode())
 				}
 			}
-			desc = fmt.Sprintf("reports devices=%d slots=%d", nDev, per)
+			if err := c14Bursts()[2].run(S, st); err != nil {
+				t.Fatalf("C14: %v", err)
+			}
+			glow.SetCurrentTimeslot(S.VerifSnapshot().Offset + 100)
+		}
+		if time.Since(born) > 70*time.Second {
+			// test builds stop a server that has lived for 120 s; not a case to judge
+			ev.Label("c14:long-history-setup-too-slow-unjudged")
+			return
 		}
 		point := rapid.SampledFrom(c14Points).Draw(t, "gap")
 		bi := rapid.SampledFrom([]int{0, 2}).Draw(t, "burst")
